@@ -24,7 +24,7 @@ let boolc b = if b then "1" else "0"
 
 let ext_of_string = function
   | "8BITMIME" -> M.E8BITMIME | "SMTPUTF8" -> M.ESMTPUTF8 | "DSN" -> M.EDSN
-  | "ENHANCEDSTATUSCODES" -> M.EENHANCED | s -> failwith ("unknown capability " ^ s)
+  | "ENHANCEDSTATUSCODES" -> M.EENHANCED | "STARTTLS" -> M.ESTARTTLS | s -> failwith ("unknown capability " ^ s)
 
 let parse_decision (s : string) : M.decision =
   match s with
@@ -62,6 +62,7 @@ let event_string (e : M.event) : string =
     | M.CGreet -> "GREETING", "", "-"
     | M.CEhlo n -> "EHLO", string_of_bytes n, "-"
     | M.CHelo n -> "HELO", string_of_bytes n, "-"
+    | M.CStartTLS -> "STARTTLS", "", "-"
     | M.CMail (f, ps) -> "MAIL", string_of_bytes f, params_string ps
     | M.CRcpt (t, ps) -> "RCPT", string_of_bytes t, params_string ps
     | M.CData -> "DATA", "", "-"
@@ -81,10 +82,15 @@ let run (toks : string list) : string =
      | Some (d, []) -> hex_of_bytes wire ^ " " ^ hex_of_bytes d
      | _ -> hex_of_bytes wire ^ " NONE")
   | kind :: caps :: ret :: notify :: noop :: script :: msgs :: derived :: _ ->
-    let caps = if caps = "-" then [] else List.map ext_of_string (split_on ',' caps) in
+    let caplist t = if t = "-" then [] else List.map ext_of_string (split_on ',' t) in
+    let caps, pol, caps_tls = match split_on '/' caps with
+      | [a; "O"; b] -> caplist a, M.TlsOpportunistic, caplist b
+      | [a; "M"; b] -> caplist a, M.TlsMandatory, caplist b
+      | a :: _ -> caplist a, M.TlsNone, caplist a
+      | [] -> [], M.TlsNone, [] in
     let ret = if ret = "-" then "" else ret and notify = if notify = "-" then "" else notify in
     let cfg = { M.cf_helo = bytes_of_string "client.test"; M.cf_dsn = (ret <> "" || notify <> "");
-                M.cf_ret = bytes_of_string ret; M.cf_notify = bytes_of_string notify; M.cf_noop = (noop <> "0") } in
+                M.cf_ret = bytes_of_string ret; M.cf_notify = bytes_of_string notify; M.cf_noop = (noop <> "0"); M.cf_tls = pol } in
     let script = if script = "-" then [] else List.map parse_decision (split_on ',' script) in
     let ms = if msgs = "-" then [] else List.mapi parse_msg (split_on ';' msgs) in
     let strip_suffix full inner =
@@ -109,7 +115,7 @@ let run (toks : string list) : string =
       if i < Array.length renders then
         let (content, e) = renders.(i) in ([content], e)
       else ([], Some (M.ELocal (bytes_of_string "no render result in the case line"))) in
-    let o = M.run_gen cfg caps script ms render in
+    let o = M.run_gen cfg caps caps_tls script ms render in
     let w = o.M.o_world in
     let dial_ok = (match o.M.o_ret with M.RetDial -> false | _ -> true) in
     (match kind with
